@@ -83,6 +83,7 @@ type world struct {
 	R   *walletNode // renter wallet, confirmed outputs
 	R2  *walletNode // renter wallet whose funds sit in an unconfirmed output
 	cmV *chain.Manager
+	B   *walletNode // harness-owned bank on the host's node: pays out the wallets' outputs
 
 	hostKey, renterKey, otherKey types.PrivateKey // RPC keys
 
@@ -147,20 +148,19 @@ func newWorld(c *Ctx) *world {
 	go w.srv.Serve(w.mux, zap.NewNop())
 	w.client = &tcpClient{addr: l.Addr().String(), peer: w.hostKey.PublicKey()}
 
-	// fund the wallets: 24 outputs for the host, 14 for the renter, 2 for the
-	// second renter wallet, then let everything mature
-	for i := 0; i < 24; i++ {
-		w.mineHost(w.H.w.Address(), false)
-	}
-	for i := 0; i < 14; i++ {
-		w.mineHost(w.R.w.Address(), false)
-	}
-	for i := 0; i < 2; i++ {
-		w.mineHost(w.R2.w.Address(), false)
+	// all coins are mined to a bank wallet, which pays the host's and the renters'
+	// wallets in outputs of 1000 SC (so that one- and two-output funding is cheap)
+	w.B = newWallet(w.cmH, seededKey(c.R))
+	for i := 0; i < 10; i++ {
+		w.mineHost(w.B.w.Address(), false)
 	}
 	for i := 0; i < int(n.MaturityDelay)+1; i++ {
 		w.mineHost(types.VoidAddress, false)
 	}
+	w.pay(w.H.w.Address(), 24)
+	w.pay(w.R.w.Address(), 14)
+	w.pay(w.R2.w.Address(), 2)
+	w.mineHost(types.VoidAddress, false)
 	w.rel = "same"
 	w.resync()
 	return w
@@ -171,6 +171,7 @@ func (w *world) close() {
 	w.srv.Close()
 	w.contractor.Close()
 	w.H.w.Close()
+	w.B.w.Close()
 	w.R.w.Close()
 	w.R2.w.Close()
 }
@@ -191,8 +192,50 @@ func (w *world) mineHost(addr types.Address, feedRenter bool) {
 	}
 }
 
+// pay puts a bank transaction with n outputs of 1000 SC to addr into the
+// host's pool (the next host block confirms it).
+func (w *world) pay(addr types.Address, n int) {
+	w.B.sync()
+	unit := types.Siacoins(1000)
+	fee := types.Siacoins(1)
+	txn := types.V2Transaction{MinerFee: fee}
+	for i := 0; i < n; i++ {
+		txn.SiacoinOutputs = append(txn.SiacoinOutputs, types.SiacoinOutput{Address: addr, Value: unit})
+	}
+	basis, toSign, err := w.B.w.FundV2Transaction(&txn, unit.Mul64(uint64(n)).Add(fee), false)
+	must(err)
+	w.B.w.SignV2Inputs(&txn, toSign)
+	_, err = w.cmH.AddV2PoolTransactions(basis, []types.V2Transaction{txn})
+	must(err)
+}
+
+// topUp keeps the wallets supplied; it needs a synced pair and leaves one.
+func (w *world) topUp() {
+	paid := false
+	if len(confirmedOnly(w.H.avail())) < 12 {
+		w.resync()
+		w.pay(w.H.w.Address(), 16)
+		paid = true
+	}
+	if len(confirmedOnly(w.R.avail())) < 6 {
+		w.resync()
+		w.pay(w.R.w.Address(), 10)
+		paid = true
+	}
+	if b, err := w.R2.w.Balance(); err == nil && b.Confirmed.Add(b.Unconfirmed).Cmp(types.Siacoins(200)) < 0 {
+		w.resync()
+		w.pay(w.R2.w.Address(), 2)
+		paid = true
+	}
+	if paid {
+		w.mineHost(types.VoidAddress, true)
+		w.resync()
+	}
+}
+
 func (w *world) afterHostChange() {
 	w.H.sync()
+	w.B.sync()
 	deadline := time.Now().Add(10 * time.Second)
 	for {
 		tip, _ := w.contractor.Tip()
@@ -370,6 +413,20 @@ func (n *walletNode) avail() []availOut {
 	}
 	sort.SliceStable(res, func(i, j int) bool { return res[i].Value.Cmp(res[j].Value) > 0 })
 	sort.SliceStable(eph, func(i, j int) bool { return eph[i].Value.Cmp(eph[j].Value) > 0 })
+	// the wallet does not show whether an unconfirmed output is locked: probe it
+	// by funding a scratch transaction with everything (released at once)
+	if len(eph) > 0 {
+		var total types.Currency
+		for _, a := range append(append([]availOut(nil), res...), eph...) {
+			total = total.Add(a.Value)
+		}
+		var probe types.V2Transaction
+		if _, _, err := n.w.FundV2Transaction(&probe, total, true); err != nil {
+			eph = nil // (the harness never holds more than one unconfirmed output per wallet)
+		} else {
+			n.w.ReleaseInputs(nil, []types.V2Transaction{probe})
+		}
+	}
 	return append(res, eph...)
 }
 
